@@ -5,5 +5,6 @@ INVARIANT OncePerSignal
 INVARIANT InOrder
 INVARIANT ViewIsFresh
 INVARIANT NoOpUnchanged
+INVARIANT RerunClean
 INVARIANT OverrideIsRedrive
 CHECK_DEADLOCK FALSE
